@@ -441,3 +441,118 @@ theorem sessionDurable_is_synced_file (nl : Nat) (evs : List Ev) (i : Nat)
     simp [this, fileCells_nil]
 
 end Hv.Storage
+
+namespace Hv.Storage
+
+/-! ### Writing after a recovery (repaired open) -/
+
+theorem createOps_apply_any (d : Disk) (nl : Nat) :
+    d.applyAll (createOps .main nl) = { main := some (fhCells nl ++ nmCells nl), temp := d.temp } := by
+  by_cases h : nl = 0
+  · subst h
+    simp [createOps, Disk.applyAll, Disk.apply, Disk.set, Disk.get, splice, nmCells]
+  · have ht : List.take 64 (fhCells nl) = fhCells nl := List.take_of_length_le (by simp)
+    simp [createOps, h, Disk.applyAll, Disk.apply, Disk.set, Disk.get, splice, List.drop_of_length_le, ht]
+
+/-- `Sync`: everything buffered ends up in the file as whole blocks -/
+theorem syncW_spec (c : Cfg) (mk : Mk) (hmk : MkOk mk) (d : Disk) (w : WSt) (f : List Cell) (h : WInv d w f) :
+    ∃ nbs, entsOf nbs = w.buf ∧ (∀ b ∈ nbs, b.WF) ∧
+      (d.applyAll (syncW c mk w).2).get w.path = some (f ++ render nbs) := by
+  obtain ⟨nbs, he, _, hp⟩ := flushW_spec mk hmk d w f h
+  refine ⟨nbs, he, hp.wf, ?_⟩
+  simp only [syncW, Disk.applyAll_append, Disk.applyAll_cons, Disk.applyAll_nil]
+  have hno := header_rewrite_noop _ _ _ hp.inv
+  rw [hp.path, hp.nl] at hno
+  rw [hno]
+  cases c.syncFsyncs <;> simp [Disk.applyAll, Disk.apply] <;> rw [← hp.path] <;> exact hp.inv.file
+
+/-- The repaired `openExistingFile` on what a crash leaves behind: the writer ends up on a clean
+    file holding exactly the blocks a load of the image returns. -/
+theorem open_repaired (c : Cfg) (hc : GoodR c.r) (ht : c.truncatesTornTail = true) (nl bsz : Nat)
+    (blocks : List Block) (hwf : ∀ b ∈ blocks, b.WF) (d : Disk) (htemp : d.temp = none)
+    (hmain : d.main = none ∨ ∃ g, d.main = some g ∧ g <+: fileCells nl blocks) :
+    ∃ bs0 w o, openWriter c d .main nl bsz = some (w, o) ∧ WInv (d.applyAll o) w (fileCells nl bs0) ∧
+      w.path = .main ∧ w.buf = [] ∧ (∀ b ∈ bs0, b.WF) ∧ recover c d = Index.replay [] (entsOf bs0) := by
+  have fresh : ∀ d : Disk, d.temp = none →
+      WInv (d.applyAll (createOps .main nl))
+        { path := .main, pos := 64 + nl, nl := nl, buf := [], bufSize := 0, bs := bsz } (fileCells nl []) := by
+    intro d hd
+    rw [createOps_apply_any]
+    exact ⟨by simp [Disk.get, fileCells_nil], by simp [fileCells_nil], fileCells_hdr nl []⟩
+  rcases hmain with hnone | ⟨g, hg, hpre⟩
+  · refine ⟨[], _, createOps .main nl, ?_, fresh d htemp, rfl, rfl, by simp, ?_⟩
+    · simp [openWriter, Disk.get, hnone]
+    · simp [recover, mainIndex, hnone, entsOf, Index.replay]
+  · by_cases hlen : 64 + nl ≤ g.length
+    · obtain ⟨m, hm, t, hgt, htail⟩ := prefix_file_shape nl blocks g hpre hlen
+      have hwfm : ∀ b ∈ blocks.take m, b.WF := fun b hb => hwf b (List.mem_of_mem_take hb)
+      have htail' : t = [] ∨ ∃ b r, b.WF ∧ t = (blockCells b).take r ∧ r < 16 + b.plen := by
+        rcases htail with h | ⟨b, r, hb, h, _, hr⟩
+        · exact Or.inl h
+        · exact Or.inr ⟨b, r, hwf b (List.mem_of_getElem? hb), h, hr⟩
+      have hv := validLen_clean_tail nl (blocks.take m) hwfm t htail'
+      rw [← hgt] at hv
+      have hh : headerOf g = some nl := by
+        rw [hgt]; simp only [fileCells, List.append_assoc]; exact headerOf_file nl _
+      have hload : loadFile c.r g = .ok (entsOf (blocks.take m)) := by
+        rcases htail with h | ⟨b, r, hb, h, _, hr⟩
+        · rw [hgt, h, List.append_nil]; exact loadFile_clean c.r nl _ hwfm
+        · rw [hgt, h, loadFile_base_tail c.r nl _ hwfm b (hwf b (List.mem_of_getElem? hb)) r hr,
+            stopOk_tailStop c.r hc r]; simp
+      refine ⟨blocks.take m, { path := .main, pos := (fileCells nl (blocks.take m)).length, nl := nl, buf := [], bufSize := 0, bs := bsz },
+        (if (fileCells nl (blocks.take m)).length < g.length then [.truncate .main (fileCells nl (blocks.take m)).length] else []),
+        ?_, ?_, rfl, rfl, hwfm, ?_⟩
+      · simp [openWriter, Disk.get, hg, hh, ht, hv]
+      · have hdisk : (d.applyAll (if (fileCells nl (blocks.take m)).length < g.length
+            then [FsOp.truncate .main (fileCells nl (blocks.take m)).length] else [])).get .main =
+              some (fileCells nl (blocks.take m)) := by
+          split
+          · rename_i hlt
+            simp only [Disk.applyAll_cons, Disk.applyAll_nil, Disk.apply, Disk.get, hg, Disk.set]
+            rw [hgt, List.take_left']
+            · have : (fileCells nl (List.take m blocks)).length - (fileCells nl (List.take m blocks) ++ t).length = 0 := by
+                simp
+              simp [this]
+            · rfl
+          · rename_i hge
+            have hl : g.length = (fileCells nl (blocks.take m)).length + t.length := by rw [hgt]; simp
+            have ht0 : t = [] := by
+              apply List.eq_nil_of_length_eq_zero; omega
+            simp [Disk.applyAll_nil, Disk.get, hg, hgt, ht0]
+        exact ⟨hdisk, rfl, fileCells_hdr nl _⟩
+      · simp [recover, mainIndex, hg, hload]
+    · -- not even header + name: the file is recreated; it loads as empty
+      have hload : loadFile c.r g = .ok [] := by
+        obtain ⟨m, _, hl, _⟩ := loadFile_prefix_good c.r hc nl blocks hwf g hpre
+        by_cases h64 : g.length < 64
+        · simp [loadFile, headerOf_short g h64, hc.2.2, h64]
+        · have hfh : fhCells nl <+: g := by
+            apply List.prefix_of_prefix_length_le _ hpre (by simp; omega)
+            simp only [fileCells, List.append_assoc]; exact List.prefix_append _ _
+          obtain ⟨g2, hg2⟩ := hfh
+          subst hg2
+          have hd : (fhCells nl ++ g2).drop 64 = g2 := by
+            rw [List.drop_append_of_le_length (by simp)]
+            simp [List.drop_of_length_le]
+          have hl2 : g2.length < nl := by
+            simp only [List.length_append, fhCells_length] at hlen
+            omega
+          simp only [loadFile, headerOf_file, hd, hl2, if_true, hc.2.2]
+      refine ⟨[], _, createOps .main nl, ?_, fresh d htemp, rfl, rfl, by simp, ?_⟩
+      · by_cases h64 : g.length < 64
+        · simp [openWriter, Disk.get, hg, headerOf_short g h64, ht]
+        · have hfh : fhCells nl <+: g := by
+            apply List.prefix_of_prefix_length_le _ hpre (by simp; omega)
+            simp only [fileCells, List.append_assoc]; exact List.prefix_append _ _
+          obtain ⟨g2, hg2⟩ := hfh
+          subst hg2
+          have hd : (fhCells nl ++ g2).drop 64 = g2 := by
+            rw [List.drop_append_of_le_length (by simp)]
+            simp [List.drop_of_length_le]
+          have hl2 : g2.length < nl := by
+            simp only [List.length_append, fhCells_length] at hlen
+            omega
+          simp [openWriter, Disk.get, hg, headerOf_file, ht, validLen, hd, hl2]
+      · simp [recover, mainIndex, hg, hload, entsOf, Index.replay]
+
+end Hv.Storage
